@@ -76,6 +76,13 @@ CHUNKS = [b"\n", b"\n\n", b"`\n", b"!<arch>\n", b"abc", b"\x00\xff", b"line\n", 
 def _gen_data(rng, size_class):
     if size_class == 0:
         return b""
+    if size_class == 4:
+        # beyond one I/O buffer, few or no newlines
+        body = bytes(rng.choice(b"abcdefgh") for _ in range(64)) * rng.choice([130, 200, 300])
+        if rng.random() < 0.5:
+            cut = rng.randrange(len(body))
+            body = body[:cut] + b"\n" + body[cut:]
+        return body + rng.choice([b"", b"\n", b"tail"])
     target = {1: rng.randint(1, 3), 2: rng.randint(4, 20), 3: rng.randint(21, 64)}[size_class]
     out = b""
     while len(out) < target:
@@ -107,7 +114,8 @@ def generate(seed, run, tier):
             name = "m%d" % i
         style = "bsd" if (rs.random() < 0.25 or len(name) == 16) else "gnu"
         members.append({"name": name, "style": style,
-                        "data": enc_bytes(_gen_data(rw, rw.choice([0, 1, 2, 2, 3, 3]))),
+                        "data": enc_bytes(_gen_data(rw, 4 if rs.random() < 0.03 else
+                                                    rw.choice([0, 1, 2, 2, 3, 3]))),
                         "mtime": rw.choice([0, 1342943816, 999999999999]),
                         "uid": rw.choice([0, 1000, 999999]), "gid": rw.choice([0, 50, 999999]),
                         "mode": rw.choice([0o100644, 0o100755, 0o644])})
@@ -121,6 +129,9 @@ def generate(seed, run, tier):
     if "filename" in archives and rs.random() < 0.4:
         prior = [{"name": (rw.choice(names_pool)[:15] if rw.random() < 0.5 else "p%d" % k),
                   "data": enc_bytes(_gen_data(rw, 3))} for k in range(rw.randint(1, 3))]
+        if rs.random() < 0.5 and len(members) >= 2:
+            # same members in reverse order: a different archive of identical byte length
+            prior = "reversed"
     # swarm: op weights
     w = {"read_n": rs.choice([1, 4, 8]), "read_all": rs.choice([0, 1, 2]),
          "read_neg": rs.choice([0, 1]), "readline": rs.choice([1, 4, 8]),
@@ -189,9 +200,14 @@ def execute(case):
                     if world.get("prior"):
                         # history: another archive lived at this path, its reader read
                         # something and is still alive; then the file was replaced
-                        pm = [(m["name"], dec_bytes(m["data"])) for m in world["prior"]]
+                        if world["prior"] == "reversed":
+                            pmembers = [dict(m, data=d) for m, d in zip(members, datas)][::-1]
+                        else:
+                            pmembers = [{"name": m["name"], "data": dec_bytes(m["data"])}
+                                        for m in world["prior"]]
+                        pm = [(m["name"], m["data"]) for m in pmembers]
                         fd = os.open(path, os.O_WRONLY | os.O_CREAT | os.O_TRUNC, 0o644)
-                        os.write(fd, arwriter.build([{"name": n, "data": d} for n, d in pm]))
+                        os.write(fd, arwriter.build(pmembers))
                         os.close(fd)
                         old_ar = arfile.ArFile(filename=path)
                         for m_, (n_, d_) in zip(old_ar.getmembers(), pm):
